@@ -46,7 +46,7 @@ type genOutcome struct {
 
 func partsNonEmpty(ps []proto.Part) bool {
 	for _, p := range ps {
-		if p.Text != "" || p.Ref != "" || p.Value != "" || p.Tmpl != "" || p.DocRef != "" || p.Results || p.Bulk > 0 || p.Locate != "" || p.Names || p.FieldDocs {
+		if p.Text != "" || p.Ref != "" || p.Value != "" || p.Tmpl != "" || p.DocRef != "" || p.Results || p.Bulk > 0 || p.Locate != "" || p.Names || p.FieldDocs || p.Octal {
 			return true
 		}
 	}
@@ -69,7 +69,7 @@ func outcome(g *proto.GenScript, pkg string, events []proto.Event) genOutcome {
 			case p.State == "inst-count":
 				o.Parts = append(o.Parts, proto.Part{Text: p.Text + fmt.Sprint(seen)})
 			default:
-				if p.Value != "" || p.Results || p.Bulk > 0 || p.Locate != "" || p.Names || p.FieldDocs {
+				if p.Value != "" || p.Results || p.Bulk > 0 || p.Locate != "" || p.Names || p.FieldDocs || p.Octal {
 					o.HasValue = true // text the driver does not predict
 				}
 				o.Parts = append(o.Parts, p)
